@@ -16,13 +16,15 @@ PLAN = dict(
                "other flat family TLC checks the strict/safe duality row-wise from the recorded per-row strict outcomes (K2, K3); re-encodings and lossless "
                "casts are inverted (K4); values are formatted and parsed back (K5); DataType Display is parsed back over a generated type zoo (K6).",
     level_note="Not decided: the numeric value of float <-> integer / decimal / text conversions and of text parsing (only duality and round-trip identities), "
-               "time-zone database semantics (fixed offsets only), nested targets in the duality law (K1 and re-encoding only), Time32/Time64 values outside a day, "
+               "text -> date / timestamp / interval / float parsing (only duality and round trips), time-zone database semantics (fixed offsets only), nested targets in the duality law (K1 and re-encoding only), Time32/Time64 values outside a day, "
                "decimal inputs beyond their declared precision. Calendar conversions are specified inside chrono's date range only.",
     technique="TLA+ operator definitions (Cast/BigNum), TLC model checking of cast laws on a small universe, TLC trace validation of recorded casts",
     rule="TLC evaluates, on every recorded event: K1 can_cast_types(a,b) => no 'unsupported' outcome and empty / all-null columns cast; CastVal(a,b,v) for the exact families "
          "(strict errs iff some valid row is not representable, safe nulls exactly those rows, identical values elsewhere); K2/K3 for other flat families from per-row "
          "strict outcomes; K4 cast then inverse = identity for re-encodings of one logical type and for casts the specification calls lossless; K5 parse(format(x)) = x; "
-         "K6 DataType::from_str(to_string(t)) = t; distinct = distinct event records",
+         "K6 DataType::from_str(to_string(t)) = t; text -> integer / duration / decimal / boolean / time of day: the lexical definition TextVal of Cast.tla "
+         "(language + denoted value) against the string casts in both modes and Parser::parse, exhaustively for every string of length <= 4 over "
+         "{' ', TAB, '+', '-', '0', '1', '9', '.', 'e', 'x', ':'} and on decorated boundary numerals; distinct = distinct event records",
     assumptions=[
         "the driver's limb encoder (vcore::big) and logical row tokens (vcore::tok) are faithful (a corrupted field is rejected: binding self-test)",
         "TLC and the Json community module are trusted",
